@@ -2,6 +2,7 @@ package sim
 
 import (
 	"crypto/sha256"
+	"dst/simyield"
 	"encoding/hex"
 	"fmt"
 	"strings"
@@ -312,6 +313,16 @@ func RunScenario(t *testing.T, sc *Scenario, tape *Tape, salt uint64, known []Kn
 	// Nothing is written anywhere.
 	SetLogVerbosity(w.T.Pick(4, "verbosity") == 3)
 	sc.Init(w)
+	simyield.Hook = nil
+	if w.YieldPermille > 0 {
+		w.ysalt = salt
+		simyield.Hook = w.yieldPoint
+		defer func() {
+			simyield.Hook = nil
+			w.Probes["yield-points-passed"] = int(w.ycount)
+			w.Probes["yields-taken"] = int(w.yields)
+		}()
+	}
 	for i := 0; i < 64; i++ {
 		finished := false
 		func() {
